@@ -214,7 +214,7 @@ def zeroed_weights(ctx):
 
 @rule('C18.e', min_instances=4)
 def conservative_collapse(ctx):
-    """impose_collapse moves weight conservatively: each collapsed weight is read into the group's accumulator and zeroed in the same step (so overlapping groups cannot count it twice), and the accumulator is written back to the surviving index before the next group; normalize / impose_sum / impose_product / impose_weight_norm keep their confirmed scaling"""
+    """impose_collapse moves weight conservatively: each collapsed weight is read into the group's accumulator and zeroed in the same step, and the accumulator is written back to the surviving index before the next group - or, the groups being the disjoint ones tools.connected returns, all group sums are taken first and the stores follow (two-phase form); normalize / impose_sum / impose_product / impose_weight_norm keep their confirmed scaling"""
     from .c18_refs import REFS
     f = ctx.func(MS + ':impose_collapse')
     # structural clause first: read-and-zero of weights[k] share one innermost loop body, write-back in the enclosing one
@@ -226,6 +226,16 @@ def conservative_collapse(ctx):
                     isinstance(s.value, ast.Call) and [const_value(a) for a in s.value.args] == [0.0]:
                 zero.append((lp, s))
     ctx.need(bool(zero), 'impose_collapse: no zeroing store `weights[k] = type(v)(0.0)` found in a loop body')
+    # the groups are what tools.connected returns - disjoint since repair (C18.i), negative indices converted before: with disjoint groups the
+    # order of "sum the group" and "zero its members" no longer matters, so the two-phase form (all sums, then all stores) is accepted as well
+    via_connected = any(isinstance(st, ast.Assign) and isinstance(st.value, ast.Call) and callee_text(st.value).split('.')[-1] == 'connected' and
+                        any(isinstance(lp.iter, ast.Call) and isinstance(lp.iter.func, ast.Attribute) and unparse(lp.iter.func.value) == unparse(st.targets[0]) for lp in loops)
+                        for st in stmts_of(f.node))
+    if via_connected:
+        gotB, wantB = SB.agree(f.node, REFS[MS + ':impose_collapse#two-phase'], strict_casts=True)
+        if gotB == wantB:
+            ctx.ok('impose_collapse', 'per group: sum of the group first, then w[k] = 0; x[k] = x[i]; w[i] = sum (groups from tools.connected are disjoint)', f, f.node)
+            zero = []
     for lp, s in zero:
         key = unparse(s.targets[0])
         before = lp.body[:lp.body.index(s)]
@@ -243,7 +253,8 @@ def conservative_collapse(ctx):
                 bld.exec_stmt(b_)
         ctx.check(bool(moved), 'impose_collapse#atomic-move', '%s is accumulated and zeroed in the same step' % key,
                   'impose_collapse zeroes %s without having accumulated it in the same step (overlapping groups would count or drop weight twice)' % key, f, s)
-    _ref(ctx, MS + ':impose_collapse', REFS[MS + ':impose_collapse'], 'per group: v = w[i]; for k: v += w[k]; w[k] = 0; x[k] = x[i]; then w[i] = v')
+    if not (via_connected and gotB == wantB):
+        _ref(ctx, MS + ':impose_collapse', REFS[MS + ':impose_collapse'], 'per group: v = w[i]; for k: v += w[k]; w[k] = 0; x[k] = x[i]; then w[i] = v')
     for name, what in (('normalize', 'weights / norm * mass, zero-sum handling'), ('impose_weight_norm', 'mean captured, normalize, mean restored'),
                        ('impose_sum', 'normalize(weights, mass, zsum, zmass)'), ('impose_product', 'weights / (prod/mass)**(1/n)')):
         _ref(ctx, '%s:%s' % (MS, name), REFS['%s:%s' % (MS, name)], what)
